@@ -1095,10 +1095,17 @@ func (sm *StyleManager) addTOCStyles() {
 // GetStyleWithInheritance 获取具有继承属性的样式
 // 如果样式基于其他样式，会合并父样式的属性
 func (sm *StyleManager) GetStyleWithInheritance(styleID string) *Style {
+	return sm.resolveStyle(styleID, make(map[string]bool))
+}
+
+// resolveStyle 沿 basedOn 链解析样式；visiting 记录链上已经过的样式，
+// 当 basedOn 链回到其中某个样式（循环引用，包括自引用）时在该处截断，保证解析一定终止
+func (sm *StyleManager) resolveStyle(styleID string, visiting map[string]bool) *Style {
 	style := sm.GetStyle(styleID)
-	if style == nil {
+	if style == nil || visiting[styleID] {
 		return nil
 	}
+	visiting[styleID] = true
 
 	// 如果样式没有基础样式，直接返回
 	if style.BasedOn == nil {
@@ -1106,7 +1113,7 @@ func (sm *StyleManager) GetStyleWithInheritance(styleID string) *Style {
 	}
 
 	// 递归获取基础样式
-	baseStyle := sm.GetStyleWithInheritance(style.BasedOn.Val)
+	baseStyle := sm.resolveStyle(style.BasedOn.Val, visiting)
 	if baseStyle == nil {
 		return style
 	}
